@@ -413,6 +413,13 @@ Qed.
 Definition PFr (img0 : image) (bl0 : list block) (img : image) (fr : frec) (T : list tri) : Prop :=
   PF img0 bl0 img (map m_blk (f_blocks fr)) (f_end fr) T /\ f_cache fr = true.
 
+Lemma PFr_maxref img0 bl0 img fr T (c : bool) r :
+  PFr img0 bl0 img fr T -> PFr img0 bl0 img (if c then set_maxref fr r else fr) T.
+Proof. destruct c; auto. Qed.
+
+Lemma f_end_maxref fr (c : bool) r : f_end (if c then set_maxref fr r else fr) = f_end fr.
+Proof. destruct c; reflexivity. Qed.
+
 Definition slot_free (T : list tri) (bi i : nat) : Prop :=
   exists t a, nth_error T bi = Some t /\ nth_error (b_dds (t_d t)) i = Some a /\ d_tag a = DFTAG_NULL.
 
@@ -473,11 +480,11 @@ Proof.
       + exists t, a'. auto. }
     destruct (step_update _ _ _ _ _ _ _ _ PR SF Hd) as (fr2 & U & PR2 & Ue & _).
     simpl in Hcr. rewrite U in Hcr. inversion Hcr; subst. simpl.
-    eexists. split; [exact PR2|]. split; [apply slot_free_upd; exact SF|exact Ue].
+    eexists. split; [apply PFr_maxref; exact PR2|]. split; [apply slot_free_upd; exact SF|rewrite f_end_maxref; exact Ue].
   - (* a new DD block is needed *)
     destruct (new_dd_block fr) as [frn wn] eqn:N.
     destruct (update_dd frn (fst (length (f_blocks fr), 0%nat)) (snd (length (f_blocks fr), 0%nat)) _) as [fr2 w2] eqn:U.
-    inversion Hcr; subst; clear Hcr. simpl in U.
+    inversion Hcr; subst; clear Hcr. simpl in U. rewrite f_end_maxref in Hb.
     destruct PR as [P Hc].
     destruct (PF_T_nonempty _ _ _ _ _ _ P) as (t0 & T0 & ET).
     assert (HM : map t_m T = map m_blk (f_blocks fr)) by (destruct P as (_ & _ & _ & _ & _ & HM & _); exact HM).
@@ -515,9 +522,9 @@ Proof.
     + replace (apply_log img ([(f_end fr, enc_hdr (b_ndds (m_blk hd)) 0);
                 (f_end fr + hdr_sz, enc_dds (repeat nil_dd (Z.to_nat (b_ndds (m_blk hd)))))] ++ []))
         with (new_img img (f_end fr) (b_ndds (m_blk hd))) by reflexivity.
-      exact PR2.
+      apply PFr_maxref. exact PR2.
     + simpl. apply slot_free_upd. exact SF.
-    + lia.
+    + rewrite f_end_maxref. lia.
 Qed.
 
 (** ---- whole operations *)
@@ -673,6 +680,25 @@ Proof.
     apply slot_free_upd. exact SF.
 Qed.
 
+Lemma step_putn img0 bl0 img fr T tag len data :
+  PFr img0 bl0 img fr T -> op_ok (OpPutNew tag len data) = true ->
+  forall fr' w, op_putn fr tag len data = (fr', w) -> f_end fr' < 2147483648 ->
+  exists T', PFr img0 bl0 (apply_log img w) fr' T'.
+Proof.
+  intros PR Hok fr' w Hop Hb. unfold op_putn in Hop. destruct (newref fr) as [ref fr1] eqn:N.
+  assert (PR1 : PFr img0 bl0 img fr1 T).
+  { unfold newref in N. remember (first_free fr (Z.to_nat MAX_REF) 1) as ff.
+    destruct (f_maxref fr <? MAX_REF); inversion N; subst ref fr1; auto;
+      apply (PFr_same_blocks _ _ _ fr); auto; simpl; try lia; destruct PR; assumption. }
+  destruct ((0 <? ref) && (ref <? 65536)) eqn:G.
+  - apply andb_prop in G. destruct G as [G1 G2]. apply Z.ltb_lt in G1.
+    apply (step_put _ _ _ _ _ tag ref len data PR1); auto.
+    simpl in Hok. repeat (apply andb_prop in Hok; destruct Hok as [Hok ?]).
+    simpl. rewrite Hok, G2. repeat match goal with X : _ = true |- _ => rewrite X end.
+    destruct (Z.leb_spec 0 ref); [reflexivity|lia].
+  - inversion Hop; subst. exists T. exact PR1.
+Qed.
+
 Lemma run_ops_PFr img0 bl0 ops : forall img fr T,
   PFr img0 bl0 img fr T -> forallb op_ok ops = true ->
   forall fr' w, run_ops fr ops = (fr', w) -> f_end fr' < 2147483648 ->
@@ -688,13 +714,17 @@ Proof.
     assert (M1 : mono (f_end fr) fr fr1 w1).
     { pose proof (op_ok_len o Ho) as L. destruct o; simpl in R1.
       - eapply op_put_mono; eauto; lia.
-      - eapply op_app_mono; eauto; lia. }
+      - eapply op_app_mono; eauto; lia.
+      - eapply op_putn_mono; eauto; lia.
+      - simpl in Ho. discriminate. }
     destruct M1 as (A1 & B1 & _ & D1).
     pose proof (run_ops_mono r fr1 (f_end fr1) ltac:(congruence) ltac:(congruence) ltac:(lia) Hr _ _ R2) as (_ & B2 & _).
     assert (PR1 : exists T1, PFr img0 bl0 (apply_log img w1) fr1 T1).
     { destruct o; simpl in R1.
       - eapply step_put; eauto. lia.
-      - eapply step_app; eauto. lia. }
+      - eapply step_app; eauto. lia.
+      - eapply step_putn; eauto. lia.
+      - simpl in Ho. discriminate. }
     destruct PR1 as (T1 & PR1). rewrite apply_log_app. eapply IH; eauto.
 Qed.
 
@@ -874,7 +904,8 @@ Lemma run_ops_reaches_flush_state_lemma img bl fr ops fr1 pre :
   exists T, flush_state img bl (apply_log img pre) fr1 T.
 Proof.
   intros W P L Hok R Hb. unfold load in L. rewrite P in L. inversion L; subst fr; clear L.
-  assert (PR : PFr img bl img (mkfrec (map (fun b => mkmb b false) bl) (old_end bl) true false false) (T_init bl)).
+  assert (PR : PFr img bl img (mkfrec (map (fun b => mkmb b false) bl) (old_end bl) true false false
+                                    (fold_left Z.max (map d_ref (all_dds bl)) 0)) (T_init bl)).
   { split; [|reflexivity]. simpl. rewrite map_map. simpl. rewrite map_id. apply init_PF; auto. }
   destruct (run_ops_PFr img bl ops _ _ _ PR Hok _ _ R Hb) as (T & [PT _]).
   exists T. apply PF_flush_state. exact PT.
